@@ -9,6 +9,9 @@ def range_from_index(index: int | slice, length: int) -> range:
 
 
 def slice_from_range(r: range) -> slice:
-    # A stop of -1 means "down to the first element" - unless the range is empty (e.g. range(4)[-10::-1] == range(-1, -1, -1)).
-    stop = r.stop if r.stop != -1 or not r else None
+    if not r and r.step != 1:
+        # The clamped bounds of an empty extended range (range(4)[-10::-1] == range(-1, -1, -1), range(2)[-4:0:-3] ==
+        # range(-1, 0, -3)) would select elements again when read as a slice.
+        return slice(0, 0, r.step)
+    stop = r.stop if r.stop != -1 else None
     return slice(r.start, stop, r.step)
